@@ -35,17 +35,17 @@ type schedOp struct {
 }
 
 type thr struct {
-	id      int
-	resume  chan struct{}
-	state   thrState
-	wantM   uintptr
-	prog    []schedOp
-	pc      int
-	results []string
+	id       int
+	resume   chan struct{}
+	state    thrState
+	wantM    uintptr
+	prog     []schedOp
+	pc       int
+	results  []string
 	panicked string
-	lastEv  string
-	curOp   string
-	holding int
+	lastEv   string
+	curOp    string
+	holding  int
 }
 
 type schedPoint struct {
